@@ -278,7 +278,7 @@ fn real_compiler_runs(ctx: &Ctx, batch: &[Case], first: &[String]) -> Result<usi
             continue;
         }
         n += 1;
-        src.push_str(&format!("mod c{i} {{ #[derive(derive_more::{})] pub {} }}\n", c.derive, c.item));
+        src.push_str(&format!("mod c{i} {{ #[derive(derive_more::{})] {} }}\n", c.derive, c.item));
     }
     std::fs::write(dir.join("src/lib.rs"), &src).map_err(|e| e.to_string())?;
     let mut outs: Vec<String> = vec![];
